@@ -15,11 +15,16 @@
   only if claimed mutably, new values depend only on claimed cells), running the phases one after
   the other — the tasks of a phase in ANY order — ends in the same state as running the tasks one
   by one in declared order; every task runs exactly once (`C07_each_task_once`).
-  PARTIAL: tasks are atomic in the model (interleavings *inside* data-race-free task bodies are
-  the Rust memory model's business), and that the real systems respect their claims is C03/C14;
-  the model's phases are compared with the real fork/join log by the correspondence check.
+  Tasks are not atomic: `C07_interleaving_equivalence` takes every task as a *program* (a list of
+  steps, each a claim-respecting state transformer) and a run as, phase after phase, ANY
+  interleaving of the programs of the phase's tasks (`IsInterleaving`: each task's steps in program
+  order, steps of different tasks in any order); the final state is that of the declared-order
+  sequential run (`Lemmas/Interleave`).
+  PARTIAL: steps are atomic and sequentially consistent (for data-race-free bodies that is the Rust
+  memory model's guarantee, not proved here), and that the real systems respect their claims is
+  C03/C14; the model's phases are compared with the real fork/join log by the correspondence check.
 -/
-import BroodModel.Lemmas.SchedSem
+import BroodModel.Lemmas.Interleave
 
 namespace Brood
 open Static Generated
@@ -68,6 +73,49 @@ theorem C07_sequential_equivalence {n nres : Nat} {masks : List Mask} (hm : mask
   rw [accepted_all_false, List.nil_append, stages_flatten] at this
   exact this
 
+/-- A step of a task under the footprint semantics: any transformer `γ` restricted to the task's
+claims (cells change only where claimed mutably; new values depend only on claimed cells). -/
+def apStep (n nres : Nat) (masks : List Mask) (t : Task) (γ : (SCell → Nat) → SCell → Nat)
+    (s : SCell → Nat) : SCell → Nat :=
+  apTask n nres masks (fun _ => γ) t s
+
+/-- **Running a schedule equals running its tasks one by one — at step granularity.**  Every task
+is a program `prog t` of claim-respecting steps; `trs` gives, for each phase of the stage runner,
+an arbitrary interleaving of the programs of that phase's tasks.  The final state is the one of
+the declared-order sequential run of the whole tasks. -/
+theorem C07_interleaving_equivalence {n nres : Nat} {masks : List Mask} (hm : masks.Nodup)
+    (prog : Task → List ((SCell → Nat) → SCell → Nat)) (ts : List Task) (hwf : ∀ t ∈ ts, t.WF)
+    (trs : List (List (Nat × ((SCell → Nat) → SCell → Nat))))
+    (htr : TracesOf prog trs (phaseTasks n nres masks (stages verifierTable mergerTable ts)
+      (((stages verifierTable mergerTable ts).headD []).map (fun _ => false))))
+    (s : SCell → Nat) :
+    runTraces (apStep n nres masks) trs (phaseTasks n nres masks (stages verifierTable mergerTable ts)
+      (((stages verifierTable mergerTable ts).headD []).map (fun _ => false))) s =
+      runSeq (apProg (apStep n nres masks) prog) ts s := by
+  have hst : ∀ st ∈ stages verifierTable mergerTable ts, Compatible st ∧ ∀ t ∈ st, t.WF := by
+    intro st hs
+    refine ⟨C07_stage_mates_compatible ts st hs, ?_⟩
+    intro t ht
+    apply hwf
+    have := stages_flatten verifierTable mergerTable ts
+    have hm' : t ∈ (stages verifierTable mergerTable ts).flatten := List.mem_flatten.mpr ⟨st, hs, ht⟩
+    rw [this] at hm'; exact hm'
+  have := schedule_interleaving_equiv (apStep n nres masks) prog hm
+    (fun u t h a b s' => apTask_comm2 n nres masks (fun _ => a) (fun _ => b) h s')
+    (stages verifierTable mergerTable ts) _ hst (by simp) trs htr s
+  rw [accepted_all_false] at this
+  rw [stages_flatten] at this
+  exact this
+
+/-- The premise is satisfiable by genuinely interleaved traces: two tasks of two steps each, the
+steps alternating and the second task finishing first. -/
+example (t0 t1 : Task) : IsInterleaving (fun _ => [1, 2]) [t0, t1] [(0, 1), (1, 1), (1, 2), (0, 2)] := by
+  intro i
+  match i with
+  | 0 => simp
+  | 1 => simp
+  | i + 2 => simp
+
 /-- The phases the driver prints and the correspondence check compares with the real fork/join log
 (`phases`, as `(stage, position)` pairs) name exactly the tasks of `phaseTasks`. -/
 theorem C07_phases_name_these_tasks (n nres : Nat) (masks : List Mask) (sts : List (List Task)) :
@@ -101,5 +149,6 @@ end Brood
 #print axioms Brood.C07_stage_mates_compatible
 #print axioms Brood.C07_count
 #print axioms Brood.C07_sequential_equivalence
+#print axioms Brood.C07_interleaving_equivalence
 #print axioms Brood.C07_each_task_once
 #print axioms Brood.C07_phases_name_these_tasks
